@@ -84,4 +84,28 @@ theorem undoUntil_post (level : Nat) (s s' : S) (h : runM (undoUntil level) s = 
     exact ⟨⟨s.stack, by simp⟩, trivial⟩
   · simp only [runM_bind, runM_get] at h
     exact undoUntil_loop_post level _ s s' (Nat.lt_succ_self _) h
+
+/-- **`try_add_decision`** (`decision_tracker.rs`, every state): it never fails; it answers `some true` exactly when the
+    variable had no value, and then pushes that one decision (value, reason) at the given level and changes nothing else on
+    the stack; it answers `some false` exactly when the variable already had this value and `none` exactly when it had
+    the opposite one, leaving stack and assignment map untouched in both cases — an assigned variable is never
+    overwritten. -/
+theorem tryAdd_post (v : Nat) (val : Bool) (reason level : Nat) (s : S) :
+    ∃ r s', runM (tryAdd v val reason level) s = (.ok r, s') ∧
+      (match valueOf s v with
+       | none => r = some true ∧ s'.stack = ⟨v, val, reason⟩ :: s.stack ∧ valueOf s' v = some val ∧ levelOf s' v = level
+       | some b => s'.stack = s.stack ∧ s'.amap = s.amap ∧ r = (if b == val then some false else none)) := by
+  unfold tryAdd
+  simp only [runM_bind, runM_get]
+  cases hv : valueOf s v with
+  | none =>
+    simp only [runM_bind, emit, runM_modify, runM_pure]
+    refine ⟨_, _, rfl, rfl, rfl, ?_, ?_⟩
+    · simp [valueOf, List.lookup]
+    · simp [levelOf, List.lookup]
+  | some b =>
+    dsimp only
+    by_cases hb : (b == val) = true
+    · rw [if_pos hb]; exact ⟨_, _, rfl, rfl, rfl, by rw [if_pos hb]⟩
+    · rw [if_neg hb]; exact ⟨_, _, rfl, rfl, rfl, by rw [if_neg hb]⟩
 end Resolvo.MDet
